@@ -108,8 +108,15 @@ def sub_job(job):
     d = " ".join(c[0] + " ".join(str(x) for x in c[1:])
                  for k, s in enumerate(subs) for c in (s[1:] if k in implicit else s))
     kw = {}
+    style = []
     for name, v, via in at:
+        if via == 1:
+            # given as a style declaration on the path itself
+            style.append("%s:%s" % (name, D.attr_value(name, v)))
+            continue
         kw[name.replace("-", "_")] = D.attr_value(name, v) if name not in ("stroke-width",) else float(v)
+    if style:
+        kw["style"] = ";".join(style)
     for k in ("opacity", "fill_opacity", "stroke_opacity"):
         if k in kw:
             kw[k] = float(kw[k])
@@ -179,6 +186,12 @@ def run(out, tier):
                 if prev[-1][0] in "Zz" and len(cur) > 1:
                     for at in ([], [["fill", "none", 0], ["stroke", "blue", 0]]):
                         subjobs.append(([prev, [["M", prev[0][1], prev[0][2]]] + cur[1:]], at, [1]))
+        # paint given through the path's own style attribute (a stroke makes zero-area subpaths visible)
+        for a in SUBS:
+            for b in SUBS:
+                for at in ([["fill", "none", 1], ["stroke", "blue", 1]], [["stroke", "blue", 1], ["stroke-width", 2, 1]],
+                           [["fill", "none", 0], ["stroke", "red", 1]]):
+                    subjobs.append(([a, b], at, []))
         for r, d in common.pmap(sub_job, subjobs, chunksize=32):
             recs.append(r)
             meta.append(("subpaths", d + " " + json.dumps(r["at"])))
